@@ -194,3 +194,63 @@ def check_child_window(ck, F, rule, crates, floor):
                         fn["id"], flow.norm(callee(g) or ""), op_const(t["args"][1])), b.loc(bb))
                 else:
                     ck.ok(rule, key, "start is a computed value")
+
+
+# ---------------------------------------------------------------------------------------------------------
+# belief consistency on the inline-view threshold: a view of length L is stored inline iff L <= MAX_INLINE_VIEW_LEN (12).
+# Every comparison against the named constant states a belief about L == 12; `x > MAX` / `x <= MAX` say "12 is inline",
+# `x >= MAX` / `x < MAX` say the opposite.  One site contradicting the others reads an inline view as a buffer reference or vice versa.
+THRESHOLD_EXEMPT = {
+    ("arrow_data::byte_view::validate_view_impl", "Lt"): "padding check: only views SHORTER than 12 bytes have padding bits to test (inside the `len <= MAX` branch)",
+}
+
+
+def _named_const(b, op, name, depth=0):
+    from .mirlib import op_const
+    k = op_const(op)
+    if k is not None:
+        return str(k[0] if isinstance(k, (list, tuple)) else k).endswith(name)
+    l = op_local(op)
+    if l is None or depth > 3:
+        return False
+    ds = b.defs().get(l, [])
+    if len(ds) == 1 and ds[0][0] == "s":
+        rv = ds[0][3]
+        if rv[0] == "cast":
+            return _named_const(b, rv[2], name, depth + 1)
+        if rv[0] == "use":
+            return _named_const(b, rv[1], name, depth + 1)
+    if len(ds) == 1 and ds[0][0] == "call" and len(ds[0][3]["args"]) == 1 and (callee(ds[0][3]) or "").split("::")[-1] in ("as_usize", "into", "from"):
+        return _named_const(b, ds[0][3]["args"][0], name, depth + 1)
+    return False
+
+
+def check_threshold(ck, F, rule, crates, floor, const="::MAX_INLINE_VIEW_LEN"):
+    ck.rule(rule, "every comparison of a view length with MAX_INLINE_VIEW_LEN treats a 12-byte value as inline (`len > MAX` / `len <= MAX`); a `>=` or `<` states the "
+            "opposite belief about the same layout and reads the 12 data bytes as (buffer index, offset) or the reverse", floor)
+    for cn in crates:
+        for fn in F.crate(cn).fns:
+            if "mir" not in fn:
+                continue
+            b = Body(fn)
+            for bl in range(b.n):
+                for s in b.stmts(bl):
+                    if s[0] != "a" or s[2][0] != "bin" or s[2][1] not in ("Gt", "Ge", "Lt", "Le"):
+                        continue
+                    op = s[2][1]
+                    left, right = _named_const(b, s[2][2], const), _named_const(b, s[2][3], const)
+                    if left == right:
+                        continue
+                    if left:   # MAX op x  ==  x flipped-op MAX
+                        op = {"Gt": "Lt", "Lt": "Gt", "Ge": "Le", "Le": "Ge"}[op]
+                    root = flow.norm(fn.get("parent") or fn["id"]) if fn["kind"] == "Closure" else flow.norm(fn["id"])
+                    while "::{closure" in root:
+                        root = root[:root.rindex("::{closure")]
+                    key = "%s %s" % (root, op)
+                    if op in ("Gt", "Le"):
+                        ck.ok(rule, key, "12 is inline")
+                    elif (root, op) in THRESHOLD_EXEMPT:
+                        ck.ok(rule, key, "exempt: " + THRESHOLD_EXEMPT[(root, op)])
+                    else:
+                        ck.bad(rule, key, "%s compares a view length with MAX_INLINE_VIEW_LEN using %s: a 12-byte value is treated as NOT inline here, while every other "
+                               "site (and the format) stores it inline" % (fn["id"], {"Ge": ">=", "Lt": "<"}[op]), b.loc(bl))
